@@ -3,7 +3,8 @@ package s0312
 
 type T struct {
 	F0 *int32
-	F1 *int64
-	F2 *uint32
+	F1 []int64
+	F2 []uint32
 	F3 uint64
+	F4 float32
 }
